@@ -60,7 +60,7 @@ class LogNormalCDF(Function):
 
         # Three cases to handle: An entry of z is near zero, an entry of z is small, or an entry of z neither of these.
         z_near_zero = z.pow(2).lt(0.04)
-        z_is_small = z.lt(-1)
+        z_is_small = z.lt(-5)
         z_is_ordinary = ~(z_near_zero | z_is_small)
 
         # Case 1: Entries of z that are near zero
@@ -102,7 +102,7 @@ class LogNormalCDF(Function):
         z, log_phi_z = ctx.saved_tensors
         log_phi_z_grad = torch.zeros_like(z)
 
-        z_is_small = z.lt(-1)
+        z_is_small = z.lt(-5)
         z_is_not_small = ~z_is_small
 
         if z_is_small.sum() > 0:
